@@ -136,43 +136,108 @@ def g_state(rng, cls, t, unc_pos=None, unc_ori=False, at=None):
 STATE_CLASSES = {"KS": KSState, "PM": PMState, "ST": STState, "Custom": CustomState, "custom_pm": "custom_pm"}
 
 
-def g_obstacle(rng, oid, role, opts):
-    skind = opts.get("shape", "rect")
-    shape = g_shape(rng, skind)
-    t0 = opts.get("t0", 0)
+def g_set_pred(rng, t0, opts):
+    """set-based prediction for an obstacle whose initial time step is t0"""
+    occs = []
+    t = t0 + 1 + opts.get("gap", 0)
+    for i in range(opts.get("n", 3)):
+        sh = g_shape(rng, rng.choice(["offrect", "offcirc", "offpoly", "group"]))
+        if opts.get("itv") and rng.random() < 0.6:
+            ln = rng.randint(0, 2)
+            occs.append(Occupancy(Interval(t, t + ln), sh))
+            t += ln + 1
+        else:
+            occs.append(Occupancy(t, sh))
+            t += 1 + (1 if opts.get("holes") and rng.random() < 0.3 else 0)
+    return SetBasedPrediction(t0 + 1, occs)
+
+
+def g_traj_pred(rng, shape, t0, opts):
+    """trajectory prediction (consecutive time steps) for an obstacle whose initial time step is t0"""
+    cls = STATE_CLASSES[opts.get("cls", "KS")]
     unc_pos, unc_ori = opts.get("unc_pos"), opts.get("unc_ori", False)
+    ts = t0 + 1 + opts.get("gap", 0)
+    x, y = scen.rnd(rng, -5, 10), scen.rnd(rng, 0, 6)
+    states = [g_state(rng, cls, ts + i, unc_pos, unc_ori, at=[round(x + 1.5 * i, 3), y]) for i in range(opts.get("n", 3))]
+    return TrajectoryPrediction(Trajectory(ts, states), shape)
+
+
+def g_init(rng, t0, opts):
+    unc = opts.get("unc_init", True)
+    return g_state(rng, InitialState, t0, opts.get("unc_pos") if unc else None, opts.get("unc_ori", False) if unc else False)
+
+
+def g_obstacle(rng, oid, role, opts):
+    shape = g_shape(rng, opts.get("shape", "rect"))
+    t0 = opts.get("t0", 0)
     otype = rng.choice(OTYPES)
     if role == "env":
         return EnvironmentObstacle(oid, otype, g_shape(rng, rng.choice(["offrect", "offcirc", "offpoly", "group"])))
-    n = opts.get("n", 3)
     if role in ("phantom", "dynamic_set"):
-        occs = []
-        t = t0 + 1 + opts.get("gap", 0)
-        for i in range(n):
-            sh = g_shape(rng, rng.choice(["offrect", "offcirc", "offpoly", "group"]))
-            if opts.get("itv") and rng.random() < 0.6:
-                ln = rng.randint(0, 2)
-                occs.append(Occupancy(Interval(t, t + ln), sh))
-                t += ln + 1
-            else:
-                occs.append(Occupancy(t, sh))
-                t += 1 + (1 if opts.get("holes") and rng.random() < 0.3 else 0)
-        pred = SetBasedPrediction(t0 + 1, occs)
+        pred = g_set_pred(rng, t0, opts)
         if role == "phantom":
             return PhantomObstacle(oid, pred if not opts.get("nopred") else None)
-    init = g_state(rng, InitialState, t0, unc_pos if opts.get("unc_init", True) else None,
-                   unc_ori if opts.get("unc_init", True) else False)
+    init = g_init(rng, t0, opts)
     if role == "static":
         return StaticObstacle(oid, otype, shape, init)
     if role == "dynamic_none":
         return DynamicObstacle(oid, otype, shape, init, None)
     if role == "dynamic_set":
         return DynamicObstacle(oid, otype, shape, init, pred)
-    cls = STATE_CLASSES[opts.get("cls", "KS")]
-    ts = t0 + 1 + opts.get("gap", 0)
-    x, y = scen.rnd(rng, -5, 10), scen.rnd(rng, 0, 6)
-    states = [g_state(rng, cls, ts + i, unc_pos, unc_ori, at=[round(x + 1.5 * i, 3), y]) for i in range(n)]
-    return DynamicObstacle(oid, otype, shape, init, TrajectoryPrediction(Trajectory(ts, states), shape))
+    return DynamicObstacle(oid, otype, shape, init, g_traj_pred(rng, shape, t0, opts))
+
+
+# ---- histories: what happens to an obstacle through its public API between construction and the query
+HIST_OPS = {"dynamic": ["update_initial_state", "update_initial_state", "update_initial_state+update_prediction",
+                        "update_initial_state+update_prediction", "set_initial_state", "set_prediction",
+                        "update_prediction", "set_shape", "translate_rotate"],
+            "static": ["set_initial_state", "set_initial_state", "set_shape", "translate_rotate"],
+            "phantom": ["translate_rotate", "set_prediction"],
+            "env": ["translate_rotate", "set_shape"]}
+
+
+def g_hist(rng, role):
+    """0-3 operations (by name, each with its own sub-seed); half of the obstacles are queried as constructed"""
+    if rng.random() < 0.5:
+        return []
+    r = "dynamic" if role.startswith("dynamic") else role
+    return [{"op": rng.choice(HIST_OPS[r]), "sub": rng.randrange(1 << 30)} for _ in range(rng.choice([1, 1, 2, 3]))]
+
+
+def apply_history(ob, hist, opts):
+    for h in hist:
+        rng = random.Random(h["sub"])
+        op, role = h["op"], role_of(ob)
+        if op.startswith("update_initial_state"):
+            # the obstacle was observed again: a new initial state (usually one step later, elsewhere than predicted)
+            t = ob.initial_state.time_step + rng.choice([1, 1, 1, 2, 0])
+            kw = {"max_history_length": rng.choice([1, 2])} if rng.random() < 0.3 else {}
+            ob.update_initial_state(g_init(rng, t, opts), **kw)
+            if op.endswith("update_prediction"):
+                ob.update_prediction(g_traj_pred(rng, ob.obstacle_shape, t, opts) if rng.random() < 0.7
+                                     else g_set_pred(rng, t, opts))
+        elif op == "set_initial_state":
+            t = ob.initial_state.time_step + rng.choice([0, 0, 1])
+            ob.initial_state = g_init(rng, t, opts)
+        elif op in ("set_prediction", "update_prediction"):
+            t = ob.initial_state.time_step if role == "dynamic" else 0
+            k = rng.random()
+            if role == "phantom":
+                pred = g_set_pred(rng, t, opts) if k < 0.8 else None
+            else:
+                pred = g_traj_pred(rng, ob.obstacle_shape, t, opts) if k < 0.5 else g_set_pred(rng, t, opts) if k < 0.8 else None
+            if op == "update_prediction" and pred is not None:
+                ob.update_prediction(pred)
+            else:
+                ob.prediction = pred
+        elif op == "set_shape":
+            # documented as immutable: the assignment warns and changes nothing
+            ob.obstacle_shape = g_shape(rng, rng.choice(["rect", "circ", "offpoly"]))
+        elif op == "translate_rotate":
+            a = rng.choice([0.0, 0.03, -0.03, math.pi / 2, -math.pi, scen.rnd(rng, -6.2, 6.2), scen.rnd(rng, -1, 1)])
+            ob.translate_rotate(np.array([scen.rnd(rng, -30, 30), scen.rnd(rng, -30, 30)]), a)
+        else:
+            raise ValueError(op)
 
 
 def obs_opts(rng):
@@ -198,12 +263,13 @@ def gen(rng, n):
         c = {"sub": rng.randrange(1 << 30)}
         if k < 0.35:
             c.update(kind="obs", role=rng.choice(ROLES + ["dynamic", "dynamic"]), opts=obs_opts(rng))
+            c["hist"] = g_hist(rng, {"dynamic_set": "dynamic", "dynamic_none": "dynamic"}.get(c["role"], c["role"]))
         elif k < 0.5:
             m = rng.randint(1, 6)
             c.update(kind="scn", roles=[rng.choice(ROLES) for _ in range(m)], opts=[obs_opts(rng) for _ in range(m)])
-            for o in c["opts"]:  # shape group + uncertain state cannot be built (judged in the single-obstacle cases)
-                if o["shape"] == "group" and (o.get("unc_pos") or o.get("unc_ori")):
-                    o["shape"] = "offpoly"
+            # histories of the obstacles after they were added to the scenario
+            c["hists"] = [g_hist(rng, {"dynamic_set": "dynamic", "dynamic_none": "dynamic"}.get(r, r))[:2]
+                          if rng.random() < 0.6 else [] for r in c["roles"]]
         elif k < 0.68:
             c.update(kind="place", shape=rng.choice(["rect", "circ", "poly", "offrect", "offpoly", "offcirc", "group"]))
         else:
@@ -217,7 +283,8 @@ def gen(rng, n):
 
 def nontrivial(c):
     if c["kind"] == "obs":
-        return c["role"] not in ("static", "env", "dynamic_none") or bool(c["opts"].get("unc_pos") or c["opts"].get("unc_ori"))
+        return (c["role"] not in ("static", "env", "dynamic_none") or bool(c["opts"].get("unc_pos") or c["opts"].get("unc_ori"))
+                or bool(c.get("hist")))
     if c["kind"] == "scn":
         return len(c["roles"]) > 1
     return True
@@ -226,7 +293,7 @@ def nontrivial(c):
 def kind(c):
     if c["kind"] == "obs":
         u = "uncertain" if (c["opts"].get("unc_pos") or c["opts"].get("unc_ori")) else "exact"
-        return f"obs|{c['role']}|{c['opts']['shape']}|{u}"
+        return f"obs|{c['role']}|{c['opts']['shape']}|{u}|{'history' if c.get('hist') else 'as constructed'}"
     if c["kind"] == "enc":
         return f"enc|{c['shape']}|pos={c['unc_pos']}|ori={'itv' if c['unc_ori'] else 'exact'}"
     if c["kind"] == "place":
@@ -293,7 +360,9 @@ def same_points(exp, got, scale):
             return f"kind {g[0]} instead of {e[0]}"
         if e[0] == "circ":
             if max(abs(e[1][0] - g[1][0]), abs(e[1][1] - g[1][1]), abs(e[2] - g[2])) > tol:
-                return f"circle {g[1:]} instead of {e[1:]}"
+                def fmt(d):
+                    return f"centre ({float(d[1][0]):.6g}, {float(d[1][1]):.6g}) radius {float(d[2]):.6g}"
+                return f"circle {fmt(g)} instead of {fmt(e)}"
             continue
         a, b = e[1], g[1]
         n = len(a)
@@ -445,11 +514,16 @@ def build(case):
     rng = random.Random(case["sub"])
     k = case["kind"]
     if k == "obs":
-        return g_obstacle(rng, 7, case["role"], case["opts"])
+        ob = g_obstacle(rng, 7, case["role"], case["opts"])
+        apply_history(ob, case.get("hist", []), case["opts"])
+        return ob
     if k == "scn":
         sc = Scenario(0.1, ScenarioID(False, "ZAM", "Test", 1, 1, "T", 1))
-        for i, (r, o) in enumerate(zip(case["roles"], case["opts"])):
-            sc.add_objects(g_obstacle(rng, 10 + i, r, o))
+        obs = [g_obstacle(rng, 10 + i, r, o) for i, (r, o) in enumerate(zip(case["roles"], case["opts"]))]
+        for ob in obs:
+            sc.add_objects(ob)
+        for ob, o, h in zip(obs, case["opts"], case.get("hists", [[]] * len(obs))):
+            apply_history(ob, h, o)
         return sc
     if k == "place":
         sh = g_shape(rng, case["shape"])
@@ -464,13 +538,23 @@ def build(case):
 
 
 def time_range(ob):
+    """(initial time step, last time step anything is stored for)"""
     t0 = ob.initial_state.time_step if hasattr(ob, "initial_state") else 0
     tf = t0
     p = getattr(ob, "prediction", None)
     if p is not None:
         f = p.final_time_step
-        tf = int(f.end) if isinstance(f, Interval) else int(f)
+        tf = max(tf, int(f.end) if isinstance(f, Interval) else int(f))
     return t0, tf
+
+
+def first_step(ob):
+    """the first time step anything is stored for (after a history the prediction may begin before the initial state)"""
+    t0 = ob.initial_state.time_step if hasattr(ob, "initial_state") else 0
+    p = getattr(ob, "prediction", None)
+    if p is not None:
+        t0 = min(t0, int(p.initial_time_step))
+    return t0
 
 
 def role_of(ob):
@@ -595,7 +679,9 @@ def eval_obs(case, res):
     t0, tf = time_range(ob)
     term = c_obst(ob, num)
     pred = getattr(ob, "prediction", None)
-    for t in range(t0 - 2, tf + 3):
+    if role in ("static", "dynamic"):
+        res.terms.extend(initial_occupancy_terms(ob))
+    for t in range(first_step(ob) - 2, tf + 3):
         try:  # the statement gives an answer (a value or None) for every integer t: an exception is a violation
             occ = ob.occupancy_at_time(t)
             st = ob.state_at_time(t) if role in ("static", "dynamic") else None
@@ -846,6 +932,32 @@ def c_state4(st):
     return f"(Build_state {qz(st.time_step)} (Some (PPoint {L.cpt(st.position)})) {ori} {vec} [])"
 
 
+def exact_state_term(sh, st, got, scale):
+    """CFromState term: [got] = the occupancy region of [sh] at the exact state [st]; None when a polygon of the shape
+    is too degenerate for the model's centroid"""
+    stored = hasattr(st, "orientation") and not L.derived_orientation(st)
+    # the tables hold libm's values at the arguments read off the state here, independently of the implementation
+    h = st.orientation if stored else math.atan2(st.velocity_y, st.velocity)
+    atab = "[]" if stored else qlist([f"({L.cq(st.velocity_y)}, {L.cq(st.velocity)}, {L.cq(h)})"])
+    cstab = qlist([f"({L.cq(h)}, ({qq(math.cos(h))}, {qq(math.sin(h))}))"])
+    if not all(q.shapely_object.is_valid and q.shapely_object.area > 1e-6 for q in polys(sh)):
+        return None
+    return (f"CFromState {qq(scale)} {L.c_shape(sh)} {c_state4(st)} {atab} {cstab} "
+            f"(OFlat {L.c_flat(L.f_shape(got))})")
+
+
+def initial_occupancy_terms(ob):
+    """the initial occupancy of a static / dynamic obstacle against the model: exact initial state -> placement,
+    uncertain -> enclosing rectangle.  This is where a stale cached initial occupancy shows in the correspondence"""
+    st, sh = ob.initial_state, ob.obstacle_shape
+    got = ob.occupancy_at_time(st.time_step).shape
+    if st.is_uncertain_position or st.is_uncertain_orientation:
+        return [] if isinstance(st.position, ShapeGroup) else enc_terms(sh, st, got)
+    scale = max([1.0] + [abs(float(x)) for x in L.f_shape(sh)] + [abs(float(x)) for x in st.position])
+    t = exact_state_term(sh, st, got, scale)
+    return [t] if t else []
+
+
 def eval_fromstate(case, res, sh, pos, th, scale):
     """the same shape at an exact state of a random class, through TrajectoryPrediction (the route on which states
     without an orientation attribute get their heading)"""
@@ -870,14 +982,9 @@ def eval_fromstate(case, res, sh, pos, th, scale):
     r = judge_region(rng, sh, st, got, where)
     if r:
         res.bad(*r)
-    stored = hasattr(st, "orientation") and not L.derived_orientation(st)
-    # the tables hold libm's values at the arguments read off the state here, independently of the implementation
-    h = st.orientation if stored else math.atan2(st.velocity_y, st.velocity)
-    atab = "[]" if stored else qlist([f"({L.cq(st.velocity_y)}, {L.cq(st.velocity)}, {L.cq(h)})"])
-    cstab = qlist([f"({L.cq(h)}, ({qq(math.cos(h))}, {qq(math.sin(h))}))"])
-    if all(q.shapely_object.is_valid and q.shapely_object.area > 1e-6 for q in polys(sh)):
-        res.terms.append(f"CFromState {qq(scale)} {L.c_shape(sh)} {c_state4(st)} {atab} {cstab} "
-                         f"(OFlat {L.c_flat(L.f_shape(got))})")
+    t = exact_state_term(sh, st, got, scale)
+    if t:
+        res.terms.append(t)
 
 
 def polys(sh):
@@ -907,32 +1014,39 @@ def eval_enc(case, res):
         r = judge_region(rng, sh, st, got, f"occupancy_shape_from_state sub-seed {case['sub']}")
         if r:
             res.bad(*r)
-    # ---- correspondence: the quantities the formula reads, measured through the public API
+    res.terms.extend(enc_terms(sh, st, got))
+
+
+def enc_terms(sh, st, got):
+    """correspondence terms for the enclosing rectangle [got] (None: raised) of [sh] at the uncertain state [st]:
+    the quantities the formula reads, measured through the public API"""
+    global MEAS_SINK
     if st.is_uncertain_orientation:
         o = st.orientation
         psi_d, delta = o.start + 0.5 * o.length, 0.5 * o.length
         om = f"(OMItv (Build_itv {L.cq(o.start)} {L.cq(o.end)}))"
     else:
-        psi_d, delta = st.orientation, 0.0
+        psi_d, delta = heading_of(st), 0.0
         om = f"(OMExact {L.cq(psi_d)})"
     p = st.position
     if not isinstance(p, Shape):
         pm = f"(PMExact {L.cpt(p)})"
     elif isinstance(p, Circle):
         pm = f"(PMCirc {L.cpt(p.center)} {L.cq(p.radius)})"
+    elif isinstance(p, ShapeGroup):
+        pm = "PMGroup"
     else:
         rb = p.rotate_translate_local(np.array([0, 0]), -psi_d).shapely_object.bounds
         pm = f"(PMBox {L.cpt(p.center)} {box_term(rb)})"
-    global MEAS_SINK
     MEAS_SINK = []
     try:
         sm, orc = measure(sh, psi_d, delta)
-        res.terms.extend(MEAS_SINK)
+        terms = list(MEAS_SINK)
     finally:
         MEAS_SINK = None
     scale = max([1.0] + [abs(float(x)) for x in L.f_shape(sh)] + [abs(float(x)) for x in L.f_state(st)])
     o = "OExc" if got is None else f"(OFlat {L.c_flat(L.f_shape(got))})"
-    res.terms.append(f"CEnclose {qq(scale)} {sm} {pm} {om} {orc} {o}")
+    return terms + [f"CEnclose {qq(scale)} {sm} {pm} {om} {orc} {o}"]
 
 
 MEAS_SINK = None   # eval_enc collects the CMeas terms of the primitive shapes it measures here
